@@ -80,7 +80,7 @@ func init() {
 		Run:         sb.SearchSessionC12})
 	saReal = []string{"pkg/engine/uci (Driver)", "pkg/engine (Engine)", "pkg/search/searchctl (Iterative, TimeControl)", "pkg/search, pkg/eval, pkg/board", "cmd/{turochamp,sargon,bernstein} evaluators, move filters and books", "seekerror/stdlib iox/contextx", "time (testing/synctest fake clock)"}
 	saStub = []string{"the four main() functions (their ~10-line engine wiring is repeated in verif/sim/sa/engines.go; morlock's 64 MB default table replaced by 1 MB)", "stdin/stdout line pumps replaced by simulator channels", "every leaf evaluator wrapped in the gate (inner evaluator is the real one)", "Book wrapped to sort its answer (map iteration order)", "glog output discarded"}
-	register(&Spec{Prop: "C04", QuickRuns: 2000, Level: "exploration", NeedsBubble: true, CrashIsViolation: true,
+	register(&Spec{Prop: "C04", RaceTier: true, QuickRuns: 2000, Level: "exploration", NeedsBubble: true, CrashIsViolation: true,
 		Rule: "one run = one UCI session of a polite GUI against a tape-drawn engine wiring and option set inside a synctest bubble: 3..22 commands (position startpos/fen/extended/repeated/shortened, every go variant, stop, isready, setoption, ucinewgame), with the controller interleaving command delivery, search progress (gate credits), hooked task releases, clock advances and consumer stalls from the tape; an obligation tracker demands exactly one legal bestmove per go (0000 only without legal move; go infinite only after stop), and a settle phase decides liveness. Non-trivial = at least one go and >= 10 scheduling events; distinct = hash of the (task, point)/stimulus sequence",
 		Real: saReal, Stub: saStub,
 		Assumptions: []string{"legality judged by verif/sim/rules", "scheduling freedom exists at the gate and at the simhook points; goroutines woken in the same step run in parallel until their next park point", "liveness is judged only in the settle phase (all tasks released fairly, hours of simulated time)"},
